@@ -106,3 +106,12 @@ pub proof fn lower_ascii_literals() ensures lower("true"@) == "true"@, lower("fa
 // fewer than 2^31 elements, so i32 counters over them cannot overflow
 #[verifier::external_body]
 pub proof fn script_size_assumption(n: nat) ensures n < i32::MAX { }
+// R4: more std string helpers used by utils/eval.rs::parse
+#[verifier::external_body]
+pub fn v_contains_char_str(s: &str, p: &str) -> (r: bool) ensures p@.len() == 1 ==> r == s@.contains(p@[0]) { s.contains(p) }
+/// str::replace with a one-character pattern: every occurrence of c is replaced by `to`
+pub open spec fn replace_char_spec(s: Seq<char>, c: char, to: Seq<char>) -> Seq<char> decreases s.len() {
+    if s.len() == 0 { Seq::empty() } else { (if s[0] == c { to } else { seq![s[0]] }) + replace_char_spec(s.subrange(1, s.len() as int), c, to) }
+}
+#[verifier::external_body]
+pub fn v_replace(s: &str, from: &str, to: &str) -> (r: String) ensures from@.len() == 1 ==> r@ == replace_char_spec(s@, from@[0], to@) { s.replace(from, to) }
